@@ -55,7 +55,8 @@ pub struct RawClassDef {
 pub struct RawFlags {
     pub ignore_base: bool,
     pub ignore_lig: bool,
-    /// 0 none, 1 ignoreMarks, 2 attachment type, 3 filtering set, 4 ignoreMarks+type, 5 ignoreMarks+set
+    /// 0 none, 1 ignoreMarks, 2 attachment type, 3 filtering set, 4 ignoreMarks+type, 5 ignoreMarks+set,
+    /// 6 attachment type + filtering set (the set supersedes the type)
     pub mark: u8,
     pub attach: u8,
     pub set: u8,
@@ -189,7 +190,7 @@ fn raw_flags() -> impl Strategy<Value = RawFlags> {
         3 => (
             proptest::bool::weighted(0.3),
             proptest::bool::weighted(0.3),
-            prop_oneof![2 => Just(0u8), 3 => Just(1u8), 3 => Just(2u8), 3 => Just(3u8), 1 => Just(4u8), 1 => Just(5u8)],
+            prop_oneof![2 => Just(0u8), 3 => Just(1u8), 3 => Just(2u8), 3 => Just(3u8), 1 => Just(4u8), 1 => Just(5u8), 2 => Just(6u8)],
             1u8..4,
             0u8..3,
             proptest::bool::weighted(0.1),
@@ -356,7 +357,7 @@ pub fn case_strategy() -> impl Strategy<Value = Case> {
 use arbitrary::Unstructured;
 
 const FZ_GLYPH_CLASS: [u8; 16] = [0, 0, 0, 1, 1, 1, 1, 2, 2, 2, 3, 3, 3, 3, 3, 4];
-const FZ_MARK_MODE: [u8; 16] = [0, 0, 1, 1, 1, 2, 2, 2, 3, 3, 3, 4, 5, 1, 2, 3];
+const FZ_MARK_MODE: [u8; 16] = [0, 0, 1, 1, 1, 2, 2, 2, 3, 3, 3, 4, 5, 6, 6, 3];
 const FZ_COORDS: [i16; 7] = [0, 8192, -8192, 16384, -16384, 1, -1];
 
 fn fz_u8(u: &mut Unstructured<'_>) -> arbitrary::Result<u8> {
@@ -776,7 +777,7 @@ pub fn domain_violation(c: &Case) -> Option<&'static str> {
         }
         let f = &l.flags;
         let plain = !f.ignore_base && !f.ignore_lig && f.mark == 0 && f.attach == 0 && f.set == 0 && !f.rtl;
-        if !plain && !(f.mark <= 5 && (1..=3).contains(&f.attach) && f.set <= 2) {
+        if !plain && !(f.mark <= 6 && (1..=3).contains(&f.attach) && f.set <= 2) {
             return Some("flags");
         }
         for s in &l.subs {
@@ -986,6 +987,10 @@ fn res_flags(f: &RawFlags, gdef: Option<&GdefModel>) -> LookupFlags {
         }
         5 => {
             out.ignore_marks = true;
+            out.mark_filtering_set = set;
+        }
+        6 => {
+            out.mark_attach_type = f.attach;
             out.mark_filtering_set = set;
         }
         _ => {}
@@ -2412,7 +2417,7 @@ impl Property for C04 {
             "the reference interpreter (refmodel::otl_gsub) is a correct reading of the OpenType specification; it was written from the specification text and shares no code with allsorts".into(),
             "requiredFeatureIndex is 0xFFFF, a feature tag occurs at most once per LangSys, one alternate index per request (soundness exclusions, DESIGN C04 X)".into(),
             "not compared (counted as excl:*): sequence index after a length change when re-counting disagrees, nested lookup whose own flags skip the glyph at its position, nested lookup consuming glyphs beyond the matched input, nested type 3 with an explicit alternate index, alternate index out of range".into(),
-            "mark attachment type and mark filtering set are never combined in one lookup; reverse chaining lookups are never invoked from sequence lookup records".into(),
+            "reverse chaining lookups are never invoked from sequence lookup records".into(),
             "Features::Mask is exercised on a fresh Font per request because the per-font lookup list cache is the subject of C03".into(),
             "frac-slices: where FeatureMask::FRAC applies is allsorts policy (gsub_apply_lookups_frac: each digits/digits sequence gets all features, the rest the features minus frac); the check only uses texts whose slicing is unambiguous (every slash between digits, fractions never adjacent) and context-free lookups, for which the per-slice outcome is prescribed by the specification".into(),
         ]
